@@ -39,6 +39,11 @@ EXTRA_WRITERS = {"cellX_": {"DetailedPlacer::runShiftsOnCells": "write-back of t
                  "cellOrientation_": {}, "cellY_": {}}
 
 
+def _decl_type(fn, vid):
+    d = fn.unit.by_id.get(vid)
+    return qt(d) if d is not None else ""
+
+
 def run(ctx, rep, tier):
     prog, eff = ctx.prog, ctx.eff
     rep.rule("W2", "who may write DetailedPlacement's row-list state", len(LIST_FIELDS))
@@ -95,11 +100,20 @@ def run(ctx, rep, tier):
     if len(ctor) != 1:
         raise AnalysisBroken("DetailedPlacement constructor not found")
     ctor = ctor[0]
-    pushes = [x for x in walk(ctor.body) if x.get("kind") == "CXXMemberCallExpr" and callee_info(x)["name"] == "push_back" and
-              "rowToCells" in pretty(canon(callee_info(x)["obj"]))]
+    # the per-row lists are local vectors of vectors of int, filled by push_back(cell) under the admission checks; the filling may
+    # sit in the constructor or in a private helper it calls
+    scope = [ctor] + [h for _c, h in ctx.eff.callees(ctor) if h.cls == ctor.cls and h.body is not None and h.key != ctor.key]
+    pushes = []
+    for fn in scope:
+        for x in walk(fn.body):
+            if x.get("kind") == "CXXMemberCallExpr" and callee_info(x)["name"] == "push_back":
+                oc_ = canon(callee_info(x)["obj"])
+                if oc_[0] == "index" and oc_[1][0] == "var" and "vector<std::vector<int" in qt(callee_info(x)["obj"].get("_p") or {}) + " " + _decl_type(fn, oc_[1][1]):
+                    pushes.append((fn, x))
     if not pushes:
-        rep.unknown("G4", ctor.decl, ctor, "row list construction", "push into rowToCells not found")
-    for x in pushes:
+        rep.unknown("G4", ctor.decl, ctor, "row list construction", "push into the per-row cell lists not found")
+    for owner, x in pushes:
+        ctor_, ctor = ctor, owner
         guards = ctx.guards(ctor, x) or []
         txt = [(pretty(gc), val) for gc, val, _a, _b in guards]
         # the row index may come from a helper that returns only after the same throwing checks: add the guards that dominate
@@ -128,6 +142,7 @@ def run(ctx, rep, tier):
         else:
             rep.violation("G4", x, ctor, "cell admitted to a row list without all checks",
                           "not-ignored: %s, row found: %s, bound checks: %d/3" % (ign, first, bounds), key="DetailedPlacement::DetailedPlacement|row admission")
+        ctor = ctor_
     # ---- MV ----
     for q, cal, val_q in (("DetailedPlacer::doSwap", "valueOnSwap", CQ + "DetailedPlacer::valueOnSwap"),
                           ("DetailedPlacer::doInsert", "valueOnInsert", CQ + "DetailedPlacer::valueOnInsert")):
